@@ -452,6 +452,16 @@ def oracle(c, real):
                         return kind, f"{where}: proximity={gp} although the nearest target is at {nearest} > max_distance {mxv}"
                 elif not nanp:
                     return kind, f"{where}: proximity={gp} without target"
+            if (not planar) and len(targets) == 1:
+                # GREAT_CIRCLE, single target: the clause names every metric
+                within = unbounded or nearest <= mxv * (1 - 1e-6)
+                if within and nanp:
+                    # known finding (KNOWN_FINDINGS.txt): the sweep forgets the target when the distance
+                    # along the scan line first exceeds sqrt(2)*max_distance (great-circle is not monotone along a line)
+                    return "gc-single-target:nan-within-max", (f"{where}: NaN although the single target is at great-circle "
+                                                               f"distance {nearest} <= max_distance {mxv}")
+                if within and abs(gp - nearest) > tol * nearest + 1e-6:
+                    return "single-target", f"{where}: proximity={gp}, exact great-circle distance {nearest}"
     return None
 
 
@@ -535,6 +545,10 @@ def gc_wraparound_observation(r):
     P = [untok(t) for t in x["proximity"]["v"][0]]
     missed = [(j, round(gc_dist(xs[0], xs[j], 0.0, 0.0))) for j in range(len(xs))
               if P[j] != P[j] and gc_dist(xs[0], xs[j], 0.0, 0.0) <= 3.0e6]
+    if missed:
+        r.fail("gc-single-target:nan-within-max",
+               f"GREAT_CIRCLE single target at lon -170 on a 1x35 raster lon -170..170, max_distance 3000 km: columns {missed} "
+               "are within max_distance of the target but NaN", c)
     r.extra["observations"] = [dict(
         what="GREAT_CIRCLE, one target at lon -170, 1x35 raster lon -170..170, max_distance 3000 km: columns "
              "whose true distance is within max_distance but which are NaN (the path along the line leaves the 2*max^2 range)",
